@@ -12,7 +12,8 @@ import vlib
 
 LEVEL = "model_checking"
 PROTOS = ("http1", "bolt", "http2")
-HANDOVER_DEFECTS = ("BufferNotShipped", "NewDropsBuffered", "CloseFlagReset", "LostReplyAfterMove", "ReplyTwice", "ExitBeforeTransfer")
+HANDOVER_DEFECTS = ("BufferNotShipped", "NewDropsBuffered", "CloseFlagReset", "LostReplyAfterMove", "ReplyTwice", "ExitBeforeTransfer",
+                    "ForwardedResponseConsumesRoute")
 UPGRADE_DEFECTS = ("StopBeforeNewAccepts", "BufferNotShipped", "BufferShippedTwice", "ExitBeforeTransfer", "NewClosesInherited")
 DEFECTS = ("PartialNotCounted", "WrittenNotCounted", "WrongGauge", "DrainBeforeClose", "CloseOnGoAway", "NoDrainTimeout")
 
@@ -178,7 +179,7 @@ def handover_sig(kind, runev, rt, idx):
 def handover_part(ctx, binary, rnd):
     """Hot-upgrade hand-over inside one process: cases enumerated by TLC from Handover.tla, real transfer machinery."""
     ctx.add_tlc(vlib.run_tlc(ctx, "server", "Handover", "Handover.cfg", timeout=600))
-    with concurrent.futures.ThreadPoolExecutor(max_workers=6) as ex:
+    with concurrent.futures.ThreadPoolExecutor(max_workers=7) as ex:
         futs = {d: ex.submit(vlib.run_tlc, ctx, "server", "Handover", "Handover_defect_%s.cfg" % d, workers=2, expect_ok=False) for d in HANDOVER_DEFECTS}
         for d, f in futs.items():
             if f.result()["ok"]:
@@ -187,6 +188,8 @@ def handover_part(ctx, binary, rnd):
     ctx.add_tlc(vlib.run_tlc(ctx, "server", "Handover", "Handover_cases.cfg", workers=1, cases_to=raw))
     seen, cases = set(), []
     for c in vlib.read_jsonl(raw):
+        if c["inflight"] < 2:
+            c["order"] = "fifo"         # the order of the answers only exists with two or more requests in flight
         key = json.dumps(c, sort_keys=True)
         if key not in seen:
             seen.add(key)
@@ -203,7 +206,7 @@ def handover_part(ctx, binary, rnd):
         if not any(e["ev"] == need for e in evs):
             raise vlib.Inconclusive("no %s event recorded: the verif hooks of the connection transfer are missing in %s" % (need, vlib.REPO))
     ctx.cov["handover_cases"] = len(cases)
-    ctx.cov["distinct_nontrivial"] = ctx.cov.get("distinct_nontrivial", 0) + sum(1 for c in cases if c["phase"] != "idle")
+    ctx.cov["distinct_nontrivial"] = ctx.cov.get("distinct_nontrivial", 0) + sum(1 for c in cases if c["inflight"] or c["cut"])
 
 
 def run(ctx):
@@ -247,8 +250,9 @@ def run(ctx):
     ctx.cov["rule"] = ("a case = one signal point of Shutdown.tla (2 connections x up to 2 requests x phase of the current request "
                        "in {idle,hdr,body,wait,resp}, connections interchangeable) x environment mode (prompt / stalled until exit) x "
                        "protocol (HTTP/1.1, bolt, HTTP/2), realised on a live in-process MOSN; plus one hand-over case of Handover.tla = protocol "
-                       "(bolt, HTTP/1.1) x phase of the current request when the old instance is told to hand over {idle, cut inside fixed head / "
-                       "header block / body, waiting for upstream, response partly written} x completed requests 0..2 x what follows {rest + further "
+                       "(bolt, HTTP/1.1) x requests in flight when the old instance is told to hand over (bolt multiplexed: 0..3 written, answered by the "
+                       "upstream only after the move, one at a time, in order or reversed) x next request cut {no, inside fixed head / header block / "
+                       "body} x response partly written x completed requests 0..1 x what follows {rest + further "
                        "request, client close}, realised with two server instances and the real TransferServer in one process; "
                        "non-trivial = at least one request in flight")
     ctx.cov["exhaustive"] = True
